@@ -1,3 +1,4 @@
+// verif: no-typecheck
 // sequences of scalars: valid A2ML, used for the text rule only.  The in-tree generator emits a store() for them that does
 // not type-check (`&0` where `&(u32, bool)` is needed, `&u8` where `u8` is needed), see DESIGN.md "observations outside the properties"
 a2ml_specification! {
